@@ -98,10 +98,41 @@ struct Real {
     obs: Vec<Option<Observer<u8>>>,
 }
 
+thread_local! {
+    /// > 0 while a `stabilise` issued from inside a node function / handler is on the stack
+    static NESTED: std::cell::Cell<u32> = std::cell::Cell::new(0);
+    /// a node function or bind closure ran while such a nested call was on the stack: it *computed values*
+    /// instead of panicking at once (added after seed C19-c)
+    static COMPUTED_IN_NESTED: std::cell::Cell<bool> = std::cell::Cell::new(false);
+}
+
+/// called at the start of every node function / bind closure of this world
+fn touch() {
+    if NESTED.with(|n| n.get()) > 0 {
+        COMPUTED_IN_NESTED.with(|c| c.set(true));
+    }
+}
+
 fn stab(ws: &incremental::WeakState) {
     if let Some(s) = ws.upgrade() {
+        struct Leave;
+        impl Drop for Leave {
+            fn drop(&mut self) {
+                NESTED.with(|n| n.set(n.get().saturating_sub(1)));
+            }
+        }
+        NESTED.with(|n| n.set(n.get() + 1));
+        let _leave = Leave;
         s.stabilise();
     }
+}
+
+/// Update handlers first write every variable (so that there is pending work) and then call `stabilise`.
+fn write_and_stab(vars: &[Var<u8>], ws: &incremental::WeakState) {
+    for v in vars {
+        v.set(1 - v.get().min(1));
+    }
+    stab(ws)
 }
 
 impl Real {
@@ -129,22 +160,34 @@ impl Real {
         };
         for n in prog.nodes.iter() {
             let incr = match n {
-                MNode::Map(a) => src(a, &nodes).map(|x| x.wrapping_mul(2)),
+                MNode::Map(a) => src(a, &nodes).map(|x| {
+                    touch();
+                    x.wrapping_mul(2)
+                }),
                 MNode::Map2(a, b) => {
                     let (a, b) = (src(a, &nodes), src(b, &nodes));
-                    a.map2(&b, |x, y| x.wrapping_add(*y))
+                    a.map2(&b, |x, y| {
+                        touch();
+                        x.wrapping_add(*y)
+                    })
                 }
                 MNode::MapStab(a) => {
                     let ws = state.weak();
                     src(a, &nodes).map(move |x| {
+                        touch();
                         stab(&ws);
                         *x
                     })
                 }
                 MNode::MapUpd(a) => {
                     let ws = state.weak();
-                    let m = src(a, &nodes).map(|x| x.wrapping_mul(2));
-                    m.on_update(move |_| stab(&ws));
+                    let m = src(a, &nodes).map(|x| {
+                        touch();
+                        x.wrapping_mul(2)
+                    });
+                    // a handler may own Var handles (they are not observers)
+                    let hv = vars.clone();
+                    m.on_update(move |_| write_and_stab(&hv, &ws));
                     m
                 }
                 MNode::Bind { lhs, on } => {
@@ -154,16 +197,21 @@ impl Real {
                     let on = on.clone();
                     let ws = state.weak();
                     src(lhs, &nodes).bind(move |x: &u8| {
+                        touch();
                         if *x == 0 {
                             return konst.clone();
                         }
                         let slot = |j: u8| slots.borrow()[j as usize].clone().expect("slot filled before the first stabilise");
                         match &on {
                             Target::Node(j) => slot(*j),
-                            Target::FreshMap(j) => slot(*j).map(|x| x.wrapping_mul(2)),
+                            Target::FreshMap(j) => slot(*j).map(|x| {
+                                touch();
+                                x.wrapping_mul(2)
+                            }),
                             Target::FreshStab(j) => {
                                 let ws = ws.clone();
                                 slot(*j).map(move |x| {
+                                    touch();
                                     stab(&ws);
                                     *x
                                 })
@@ -502,7 +550,8 @@ impl World for MisuseWorld {
                     }
                     MAct::SubscribeStab(i) => {
                         let ws = real.state.as_ref().unwrap().weak();
-                        real.obs[*i as usize].as_ref().unwrap().try_subscribe(move |_| stab(&ws)).is_ok()
+                        let hv = real.vars.clone();
+                        real.obs[*i as usize].as_ref().unwrap().try_subscribe(move |_| write_and_stab(&hv, &ws)).is_ok()
                     }
                     _ => unreachable!(),
                 });
@@ -535,10 +584,23 @@ impl World for MisuseWorld {
             MAct::Stabilise => {
                 let (exp, needed) = self.expected();
                 let may = exp.is_none() && !self.prev_needed.iter().all(|x| !*x) && self.may_misuse();
+                NESTED.with(|n| n.set(0));
+                COMPUTED_IN_NESTED.with(|c| c.set(false));
                 let r = {
                     let real = self.real.as_ref().unwrap();
                     catch(|| real.state.as_ref().unwrap().stabilise())
                 };
+                NESTED.with(|n| n.set(0));
+                if COMPUTED_IN_NESTED.with(|c| c.get()) {
+                    self.note("nested_stabilise_ran_node_functions");
+                    if check {
+                        vs.push(v(
+                            "C19.nested_stabilise",
+                            format!("computed:{}", exp.map_or("?".to_string(), |e| format!("{e:?}"))),
+                            "a stabilise called from inside a node function / update handler ran node functions (computed values) instead of panicking at once".to_string(),
+                        ));
+                    }
+                }
                 match (exp, r) {
                     (None, Ok(())) => {
                         let real = self.real.as_ref().unwrap();
